@@ -344,6 +344,13 @@ impl World {
                 self.sim.settle().await;
             }
         }
+        // writes that were handed over: a process that exits normally performs them (tokio runs its
+        // mandatory blocking tasks to completion), a killed one does not
+        if kind == StopKind::Kill {
+            iggy::verif::fs::drop_all_pending_writes();
+        } else {
+            iggy::verif::fs::land_all_pending_writes();
+        }
         // the process dies: destructors are inert, nothing is spawned, no file is touched
         self.sim.set_dead(true);
         self.sim.kill_group(group);
